@@ -222,10 +222,17 @@ def eval_cases(prop, header, case_terms, shard_size=60, checker='mismatches', ti
 # ---------------------------------------------------------------- findings / verdict
 
 def load_known():
+    out = []
     p = os.path.join(ROOT, 'known_findings.json')
-    if not os.path.exists(p):
-        return []
-    return json.load(open(p)).get('findings', [])
+    if os.path.exists(p):
+        out += json.load(open(p)).get('findings', [])
+    # entries proposed by a property's builder, merged into known_findings.json at integration
+    for q in sorted(glob.glob(os.path.join(ROOT, 'tools', 'checks', 'c[0-9][0-9]_known.json'))):
+        try:
+            out += json.load(open(q)).get('findings', [])
+        except Exception:
+            pass
+    return out
 
 
 def write_replay(prop, obj):
